@@ -330,6 +330,34 @@ func genC19(r *Run) {
 			}
 		}
 	}
+	// a value that already holds a parsed set is handed bytes that do not decode: the call fails and the value is
+	// what it was - it still encodes to its received octets, and after an edit to the edited names
+	for i := 0; i < r.N(200, 10000); i++ {
+		ns, _ := r.validNames()
+		if len(ns) == 0 {
+			ns = []string{"a.example"}
+		}
+		good := (&rfc1035label.Labels{Labels: ns}).ToBytes()
+		bad := [][]byte{{5, 'a', 'b'}, {0xc0}, {1, 'a', 0xc0, 3, 0xc0, 0}, append(append([]byte{}, good...), 9, 'x'), append(bytes.Repeat(append([]byte{63}, bytes.Repeat([]byte{'z'}, 63)...), 4), 0)}[r.Rng.Intn(5)]
+		l, err := rfc1035label.FromBytes(append([]byte{}, good...))
+		if err != nil {
+			continue
+		}
+		if r.Rng.Intn(2) == 0 {
+			_ = l.ToBytes()
+		}
+		if l.FromBytes(append([]byte{}, bad...)) == nil {
+			continue // (it did decode)
+		}
+		if out := l.ToBytes(); !bytes.Equal(out, good) {
+			r.Fail("failed-decode-changes-value", fmt.Sprintf("%s then %s", hx(good), hx(bad)),
+				fmt.Sprintf("after a failed FromBytes the value encodes as %x, it held %q (received as %x)", out, ns, good))
+			continue
+		}
+		if n := l.Length(); n != len(good) {
+			r.Fail("failed-decode-changes-value", fmt.Sprintf("%s then %s", hx(good), hx(bad)), fmt.Sprintf("Length %d after a failed FromBytes, want %d", n, len(good)))
+		}
+	}
 	// names whose length depends on how they end (C05's boundary family), and names completed through a pointer
 	// whose two parts are each within the limit while the whole is not (or just is)
 	for _, w := range nameBoundaryWires() {
